@@ -51,7 +51,7 @@ XMirror(p) == [p EXCEPT !.layout = "mirror"]
 XHalves(p, t) == IF t.kind = "exe" THEN {"exe"} ELSE IF IsBuild(t) THEN LibTypes(p, t) ELSE {t.kind}
 XUnits(p) == UNION {{<<i, h>> : h \in XHalves(p, p.targets[i])} : i \in Targets(p)}
 XIsNative(u) == u[2] \in {"exe", "static", "shared"}
-XLabel(p, u) == u[2] \o ":" \o p.targets[u[1]].name
+XLabel(p, u) == u[2] \o ":" \o p.targets[u[1]].name \o "#" \o ToString(u[1])
 XProductType(h) == CASE h = "exe" -> "com.apple.product-type.tool"
                      [] h = "static" -> "com.apple.product-type.library.static"
                      [] h = "shared" -> "com.apple.product-type.library.dynamic"
